@@ -8,6 +8,7 @@ import (
 	"github.com/gammazero/nexus/v3/router"
 	"github.com/gammazero/nexus/v3/wamp"
 
+	"verif/harness/canon"
 	"verif/harness/sim"
 )
 
@@ -44,6 +45,7 @@ type c07Stalled struct {
 	role     string
 	sentTo   int // messages the router was asked to deliver while stalled
 	killed   bool
+	resumed  bool // started reading again (scenario finalYieldThenResume)
 	callReqs []uint64
 }
 
@@ -115,7 +117,7 @@ func runC07(c *Case) {
 			}
 			if st.role == "caller" || st.role == "all" {
 				for k := 0; k < 1+r.IntN(3); k++ {
-					st.p.Send(&wamp.Call{Request: req, Options: wamp.Dict{"receive_progress": true}, Procedure: "srv.proc", Arguments: wamp.List{"from-stalled"}})
+					st.p.Send(&wamp.Call{Request: req, Options: wamp.Dict{"receive_progress": true}, Procedure: "srv.proc", Arguments: wamp.List{"from-stalled", st.p.Idx, uint64(req)}})
 					st.callReqs = append(st.callReqs, uint64(req))
 					req++
 				}
@@ -125,9 +127,19 @@ func runC07(c *Case) {
 		}
 		w.Wait()
 		var srvInvs []wamp.ID // invocations srv holds for the stalled callers
+		type owner struct {
+			idx int
+			req uint64
+		}
+		invOwner := map[wamp.ID]owner{}
 		for _, o := range srv.Take() {
 			if iv, ok := o.Msg.(*wamp.Invocation); ok {
 				srvInvs = append(srvInvs, iv.Request)
+				if len(iv.Arguments) >= 3 {
+					a, _ := canon.AsID(iv.Arguments[1])
+					b, _ := canon.AsID(iv.Arguments[2])
+					invOwner[iv.Request] = owner{int(a), b}
+				}
 			}
 		}
 		for _, p := range readers {
@@ -141,6 +153,15 @@ func runC07(c *Case) {
 		// ---- helpers: a request of a reader must be completed at the instant it was sent
 		reqN := uint64(1000)
 		held := map[*sim.Puppet]time.Duration{} // reader -> virtual time until which its handler may be held (yield retry)
+		const retryBound = sendResultDeadline + 6*time.Second
+		hold := func(p *sim.Puppet) {
+			base := w.Now()
+			if held[p] > base {
+				base = held[p]
+			}
+			held[p] = base + retryBound
+		}
+		var metaHeld time.Duration // the router's meta session is itself a callee that may be held by a blocked caller
 		expectNow := func(who *sim.Puppet, what string, t0 time.Duration, found bool, at time.Duration) {
 			c.Hit("ST1")
 			inflight++
@@ -178,7 +199,7 @@ func runC07(c *Case) {
 				expectNow(sub, fmt.Sprintf("EVENT %s at the reading subscriber P%d", tok, sub.Idx), t0, okE, atE)
 			}
 			for _, st := range stalled {
-				if !st.killed && (st.role == "subscriber" || st.role == "all") {
+				if !st.killed && !st.resumed && (st.role == "subscriber" || st.role == "all") {
 					st.sentTo++
 					if st.sentTo > st.q {
 						dropped++
@@ -213,7 +234,9 @@ func runC07(c *Case) {
 					okR, atR = true, o.At
 				}
 			}
-			expectNow(pub, "RESULT "+tok, t0, okR, atR)
+			if t0 >= held[sub] { // a callee held by its earlier yield to a blocked caller answers late (the documented exception)
+				expectNow(pub, "RESULT "+tok, t0, okR, atR)
+			}
 		}
 		callStalled := func() {
 			// a call to a stalled callee: queued in its queue, or refused at once when the queue is full
@@ -239,6 +262,109 @@ func runC07(c *Case) {
 				pub.Take()
 			}
 		}
+		fillAndKillCancel := func() {
+			// calls to a stalled callee until one is refused (its queue is full); a kill-mode CANCEL of
+			// the pending ones cannot deliver its INTERRUPT and must degrade to skip: ERROR canceled at once
+			nCallee, localCallee := 0, false
+			for _, x := range stalled {
+				if !x.killed && (x.role == "callee" || x.role == "all") {
+					nCallee++
+					localCallee = x.p.Kind == sim.Local && !x.resumed
+				}
+			}
+			if nCallee != 1 || !localCallee {
+				return // only decidable with a single in-process stalled callee (exact queue accounting)
+			}
+			var pending []uint64
+			for k := 0; k < 80; k++ {
+				reqN++
+				pub.Send(&wamp.Call{Request: wamp.ID(reqN), Options: wamp.Dict{}, Procedure: "stalled.proc", Arguments: wamp.List{"fill"}})
+				w.Wait()
+				refused := false
+				for _, o := range pub.Take() {
+					if m, ok := o.Msg.(*wamp.Error); ok && uint64(m.Request) == reqN {
+						refused = true
+					}
+				}
+				if refused {
+					break
+				}
+				pending = append(pending, reqN)
+				if k == 79 {
+					return // no stalled callee registered, or never full
+				}
+			}
+			note("filled the queue of a stalled callee with %d calls, now CANCEL kill", len(pending))
+			for _, rq := range pending {
+				t0 := w.Now()
+				pub.Send(&wamp.Cancel{Request: wamp.ID(rq), Options: wamp.Dict{"mode": "kill"}})
+				w.Wait()
+				var ok bool
+				var at time.Duration
+				for _, o := range pub.Take() {
+					if m, isE := o.Msg.(*wamp.Error); isE && uint64(m.Request) == rq && m.Type == wamp.CALL {
+						ok, at = true, o.At
+					}
+				}
+				expectNow(pub, fmt.Sprintf("ERROR canceled for kill-mode CANCEL of call %d whose callee cannot be interrupted (its queue is full)", rq), t0, ok, at)
+			}
+		}
+		finalYieldThenResume := func() {
+			// a final YIELD meets a blocked caller; the caller starts reading again within the retry
+			// period: the RESULT must still arrive
+			if w.Now() < held[srv] {
+				return // the callee is still busy retrying an earlier yield
+			}
+			for len(srvInvs) > 0 {
+				inv := srvInvs[0]
+				srvInvs = srvInvs[1:]
+				ow, ok := invOwner[inv]
+				if !ok {
+					continue
+				}
+				var st *c07Stalled
+				for _, x := range stalled {
+					if x.p.Idx == ow.idx && !x.killed && !x.resumed && x.p.Kind == sim.Local {
+						st = x
+					}
+				}
+				if st == nil {
+					continue
+				}
+				for k := 0; k < st.q+1; k++ { // fill the caller's queue with progressive results
+					srv.Send(&wamp.Yield{Request: inv, Options: wamp.Dict{"progress": true}, Arguments: wamp.List{"p", k}})
+				}
+				w.Wait()
+				hold(srv)
+				srv.Send(&wamp.Yield{Request: inv, Options: wamp.Dict{}, Arguments: wamp.List{"final-for-blocked-caller"}})
+				w.Wait()
+				w.Advance(20 * time.Millisecond)
+				st.p.Resume()
+				w.Advance(2 * time.Second)
+				note("final YIELD to blocked caller P%d, caller resumed 20 ms later", st.p.Idx)
+				c.Hit("ST1")
+				got := false
+				n := 0
+				for _, o := range st.p.Take() {
+					if o.Msg != nil {
+						n++
+					}
+					if res, ok := o.Msg.(*wamp.Result); ok && uint64(res.Request) == ow.req {
+						if pr, _ := res.Details["progress"].(bool); !pr {
+							got = true
+						}
+					}
+					if e, ok := o.Msg.(*wamp.Error); ok && uint64(e.Request) == ow.req {
+						got = true // the call was ended with an error: also a final reply
+					}
+				}
+				if !got {
+					c.Fail("ST1", "final result lost for a caller that resumed within the retry period", "P%d stopped reading with a full queue (%d), the callee yielded the final result, P%d resumed 20 ms later: no final RESULT/ERROR for call %d arrived within 2 s (drained %d messages)", st.p.Idx, st.q, st.p.Idx, ow.req, n)
+				}
+				st.resumed = true // reading again: not part of the later backlog accounting
+				return
+			}
+		}
 		yieldToStalled := func() {
 			if len(srvInvs) == 0 {
 				return
@@ -250,8 +376,9 @@ func runC07(c *Case) {
 			}
 			srv.Send(&wamp.Yield{Request: inv, Options: wamp.Dict{"progress": progress}, Arguments: wamp.List{strings.Repeat("y", 200)}})
 			w.Wait()
-			// srv's handler may now be retrying for up to the result-retry period
-			held[srv] = w.Now() + 2*sendResultDeadline + time.Second
+			// srv's handler may now be retrying for up to the result-retry period (the doubling
+			// delays overshoot the deadline by at most 5.5 s); yields queue up behind each other
+			hold(srv)
 			note("yield(progress=%v) by P%d to a stalled caller", progress, srv.Idx)
 			for _, st := range stalled {
 				if st.role == "caller" || st.role == "all" {
@@ -273,7 +400,15 @@ func runC07(c *Case) {
 			case 1:
 				st.p.Send(&wamp.Publish{Request: 92, Options: wamp.Dict{"acknowledge": true, "exclude_me": false}, Topic: "hot2", Arguments: wamp.List{"self"}})
 			case 2:
-				st.p.Send(&wamp.Call{Request: wamp.ID(200 + r.IntN(50)), Options: wamp.Dict{}, Procedure: pick(r, []wamp.URI{"reader.proc", "wamp.session.count", "nosuch"})})
+				proc := pick(r, []wamp.URI{"reader.proc", "wamp.session.count", "nosuch"})
+				st.p.Send(&wamp.Call{Request: wamp.ID(200 + r.IntN(50)), Options: wamp.Dict{}, Procedure: proc})
+				if proc == "wamp.session.count" {
+					base := w.Now()
+					if metaHeld > base {
+						base = metaHeld
+					}
+					metaHeld = base + retryBound
+				}
 			default:
 				st.p.Send(&wamp.Register{Request: 93, Options: wamp.Dict{}, Procedure: "stalled.proc"})
 			}
@@ -283,7 +418,7 @@ func runC07(c *Case) {
 			for _, o := range sub.Take() {
 				if iv, ok := o.Msg.(*wamp.Invocation); ok {
 					sub.Send(&wamp.Yield{Request: iv.Request, Options: wamp.Dict{}, Arguments: wamp.List{"for-stalled"}})
-					held[sub] = w.Now() + 2*sendResultDeadline + time.Second
+					hold(sub)
 				}
 			}
 			w.Wait()
@@ -303,7 +438,9 @@ func runC07(c *Case) {
 				}
 			}
 			note("meta call %s", proc)
-			expectNow(obsv, fmt.Sprintf("RESULT of %s", proc), t0, ok, at)
+			if t0 >= metaHeld {
+				expectNow(obsv, fmt.Sprintf("RESULT of %s", proc), t0, ok, at)
+			}
 		}
 		kill := func() {
 			var cand []*c07Stalled
@@ -329,7 +466,9 @@ func runC07(c *Case) {
 				}
 			}
 			note("kill of stalled P%d", st.p.Idx)
-			expectNow(obsv, "RESULT of wamp.session.kill of a stalled session", t0, ok, at)
+			if t0 >= metaHeld {
+				expectNow(obsv, "RESULT of wamp.session.kill of a stalled session", t0, ok, at)
+			}
 		}
 		realmOps := func() {
 			t0 := w.Now()
@@ -348,7 +487,11 @@ func runC07(c *Case) {
 			for k := 0; k < 1+r.IntN(6); k++ {
 				publish(pub)
 			}
-			switch r.IntN(9) {
+			switch r.IntN(11) {
+			case 9:
+				fillAndKillCancel()
+			case 10:
+				finalYieldThenResume()
 			case 0, 1:
 				call()
 			case 2:
@@ -375,6 +518,12 @@ func runC07(c *Case) {
 		}
 		// ---- the retry exception is bounded: after it the held callee is served again at once
 		if until, ok := held[srv]; ok {
+			if held[sub] > until {
+				until = held[sub]
+			}
+			if metaHeld > until {
+				until = metaHeld
+			}
 			w.Advance(until - w.Now() + time.Second)
 			for _, p := range readers {
 				p.Take()
@@ -391,6 +540,9 @@ func runC07(c *Case) {
 		}
 		w.Wait()
 		for _, st := range stalled {
+			if st.resumed {
+				continue
+			}
 			n := 0
 			for _, o := range st.p.Take() {
 				if o.Msg != nil {
@@ -415,6 +567,7 @@ func runC07(c *Case) {
 			p.Take()
 		}
 		held = map[*sim.Puppet]time.Duration{}
+		metaHeld = 0
 		c.Hit("ST4")
 		publish(pub)
 		call()
